@@ -626,6 +626,13 @@ def run(ck):
     tables.append(t0)
     reps = 1 if ck.quick else 8
     nq = 40 if ck.quick else 120
+    # tables in very small / very large units on every run (the solver's pivot threshold is absolute)
+    for sc in (1e-25, 1e18, 1e55):
+        ks = sorted(rng.sample(range(-10, 30), rng.randint(3, 9)))
+        t = Table("scaled", [k * sc for k in ks], [rng.gauss(0, 1) * 10.0 ** rng.randint(-3, 3) for _ in ks])
+        t.tabop = rng.choice(["tab", "tab:it", "tab:dq"])
+        add_queries(rng, t, nq // 2)
+        tables.append(t)
     sizes = list(range(1, 51)) * reps
     for n in sizes:
         kind, X, Y = gen_table(rng, n)
